@@ -1999,7 +1999,7 @@ func (e *nestEnv) checkDetached() {
 			e.compareMap(fmt.Sprintf("detached%d", d.h), d.mp, d)
 			err = atree.VerifyMap(d.mp, e.addr, d.mp.Type(), tic, e.hi(), true)
 		}
-		for i := nv; i < len(e.st.Violations); i++ {
+		for i, end := nv, len(e.st.Violations); i < end; i++ {
 			// the comparison helpers speak for C10 (reading through a parent); here the subject is C11
 			v := e.st.Violations[i]
 			v.Property = "C11"
